@@ -180,6 +180,27 @@ func Witnesses() []*Case {
 	add("outer3", tygen.Outer3{})
 	add("outer4", tygen.Outer4{Outer1: &tygen.Outer1{Q: 9}, T: tygen.TV{S: "t"}})
 	add("outer4-nil", tygen.Outer4{})
+	// Pretouch must compile both pointer-value variants of an out-of-line struct type (fix dbc1720): one outcome, every run
+	type ptIn = struct {
+		Z bool `json:"z,omitempty"`
+	}
+	add("pretouch-top", struct {
+		X struct{ S []ptIn }
+		Y struct{ A [1]ptIn }
+	}{X: struct{ S []ptIn }{S: []ptIn{{}}}, Y: struct{ A [1]ptIn }{A: [1]ptIn{{}}}})
+	add("pretouch-one", struct {
+		S []ptIn
+		A [1]ptIn
+	}{S: []ptIn{{}}, A: [1]ptIn{{}}})
+	o1 := tygen.Outer1{Emb1: tygen.Emb1{X: 1, Y: "y"}, Emb2: &tygen.Emb2{X: 2.5, Z: false, E3: 5}, Q: 4}
+	add("pretouch-r4476", struct {
+		B  []struct{ T tygen.Outer1 }
+		Aa struct {
+			K [2]tygen.Outer1 `json:"k,omitempty"`
+		}
+	}{B: []struct{ T tygen.Outer1 }{{T: o1}}, Aa: struct {
+		K [2]tygen.Outer1 `json:"k,omitempty"`
+	}{K: [2]tygen.Outer1{o1, o1}}})
 	// embedding chains of depth 1..8
 	n5 := 5
 	c0 := tygen.C0{X: 1, Y: "why", Z: true}
